@@ -194,7 +194,11 @@ func importResource(source map[string]any, target map[string]any, key string) er
 		} else {
 			to = map[string]any{}
 		}
-		for name, a := range from.(map[string]any) {
+		resources, ok := from.(map[string]any)
+		if !ok {
+			return fmt.Errorf("%s must be a mapping", key)
+		}
+		for name, a := range resources {
 			if conflict, ok := to[name]; ok {
 				if reflect.DeepEqual(a, conflict) {
 					continue
